@@ -400,14 +400,56 @@ fn main() {
             }
         }
         "selfcheck" => {
+            // prints "<check> <seed> <event-log hash> <events>" lines; tools/determinism.sh runs this in
+            // several processes (sequential and on 16 threads) and diffs the outputs
             let n: u64 = arg_val(&args, "--seeds").and_then(|s| s.parse().ok()).unwrap_or(64);
             let base: u64 = arg_val(&args, "--seed").and_then(|s| s.parse().ok()).unwrap_or(777);
-            // print the event-log hash of every (check, seed); the wrapper script diffs two processes
-            for spec in &specs {
-                for i in 0..n {
-                    let r = run::run_one(base + i, spec.profile, i % 2 == 1, spec.mk, true);
-                    println!("{} {} {:016x} {}", spec.id, base + i, r.log_hash, r.history.len());
+            let only = arg_val(&args, "--only");
+            let par = args.iter().any(|a| a == "--par");
+            let mut jobs: Vec<(usize, u64)> = Vec::new();
+            for (si, spec) in specs.iter().enumerate() {
+                if only.as_deref().map(|o| o != spec.id).unwrap_or(false) {
+                    continue;
                 }
+                for i in 0..n {
+                    jobs.push((si, base + i));
+                }
+            }
+            let run_job = |si: usize, seed: u64| -> String {
+                let spec = &specs[si];
+                let mut profiles = vec![spec.profile];
+                profiles.extend_from_slice(spec.more_profiles);
+                let profile = profiles[(seed % profiles.len() as u64) as usize];
+                let r = run::run_one(seed, profile, seed % 2 == 1, spec.mk, true);
+                format!("{} {} {:016x} {} {}", spec.id, seed, r.log_hash, r.history.len(), r.violations.len())
+            };
+            let mut lines: Vec<String> = if par {
+                let jobs = std::sync::Arc::new(std::sync::Mutex::new(jobs));
+                let out = std::sync::Arc::new(std::sync::Mutex::new(Vec::new()));
+                std::thread::scope(|sc| {
+                    for _ in 0..16 {
+                        let jobs = jobs.clone();
+                        let out = out.clone();
+                        let run_job = &run_job;
+                        std::thread::Builder::new()
+                            .stack_size(64 << 20)
+                            .spawn_scoped(sc, move || loop {
+                                let j = jobs.lock().unwrap().pop();
+                                let Some((si, seed)) = j else { break };
+                                let l = run_job(si, seed);
+                                out.lock().unwrap().push(l);
+                            })
+                            .unwrap();
+                    }
+                });
+                let v = out.lock().unwrap().clone();
+                v
+            } else {
+                jobs.iter().map(|(si, seed)| run_job(*si, *seed)).collect()
+            };
+            lines.sort();
+            for l in lines {
+                println!("{}", l);
             }
         }
         _ => usage(),
